@@ -128,7 +128,7 @@ def scribble(obj, fr: Fresh, depth=0):
 
 
 OPS = ["set_u", "set_logl", "update", "commit", "get_current_key", "get_current_all", "get_history", "get_history_flat",
-       "get_history_index", "get_last", "to_dict", "export_import", "results", "set_then_scribble_input", "set_readonly_view"]
+       "get_history_index", "get_last", "to_dict", "export_import", "export_from_dict", "results", "set_then_scribble_input", "set_readonly_view"]
 
 
 def apply_op(ctx, op, st: StateManager, model: Model, fr: Fresh, tag):
@@ -212,10 +212,13 @@ def apply_op(ctx, op, st: StateManager, model: Model, fr: Fresh, tag):
         expect("to_dict()==state", z3.And(*conds))
         scribble(r["_current"], fr, 1)
         scribble(r["_history"], fr, 1)
-    elif op == "export_import":
+    elif op in ("export_import", "export_from_dict"):
         r = st.to_dict()
-        st2 = StateManager(n_dim=1)
-        st2.update_from_dict(r)
+        if op == "export_from_dict":
+            st2 = StateManager.from_dict(r)  # the constructor-style import
+        else:
+            st2 = StateManager(n_dim=1)
+            st2.update_from_dict(r)
         m2 = copy.copy(model)
         m2.cur = {k: Model.cp(v) for k, v in model.cur.items()}
         m2.hist = {k: [Model.cp(v) for v in vs] for k, vs in model.hist.items()}
@@ -352,10 +355,13 @@ def make_sequences(length):
                 r = st.to_dict()
                 scr(r["_current"], 1)
                 scr(r["_history"], 1)
-            elif op == "export_import":
+            elif op in ("export_import", "export_from_dict"):
                 r = st.to_dict()
-                st2 = StateManager(n_dim=1)
-                st2.update_from_dict(r)
+                if op == "export_from_dict":
+                    st2 = StateManager.from_dict(r)
+                else:
+                    st2 = StateManager(n_dim=1)
+                    st2.update_from_dict(r)
                 snap = {k: [cp(v) for v in vs] for k, vs in st2._history.items()}
                 snapc = {k: cp(v) for k, v in st2._current.items()}
                 scr(r["_current"], 1)
